@@ -69,9 +69,31 @@ def fixed_probes() -> list[dict]:
     ]
 
 
+_project_dir = {"on": False}
+
+
+def _write_project_files(files: dict | None) -> None:
+    """Inside a history all assemblies share one project directory (as a build script would): a file is only rewritten
+    when its content changes, so its path, size and modification time stay the same between assemblies that share it."""
+    for name, content in (files or {}).items():
+        data = content.encode("utf-8") if isinstance(content, str) else bytes(content)
+        try:
+            with open(name, "rb") as f:
+                if f.read() == data:
+                    continue
+        except FileNotFoundError:
+            pass
+        os.makedirs(os.path.dirname(name) or ".", exist_ok=True)
+        with open(name, "wb") as f:
+            f.write(data)
+
+
 def run_action(a: dict):
     kind = a.get("via", "mem")
     if kind == "mem":
+        if _project_dir["on"]:
+            _write_project_files(a.get("files"))
+            return assemble(a["src"], files=None, rom=a.get("rom"), defines=a.get("defines"))
         return assemble(a["src"], files=a.get("files") or None, rom=a.get("rom"), defines=a.get("defines"))
     from vf.frontends import cli_inprocess, file_api
 
@@ -198,10 +220,24 @@ def run_shard(shard: dict) -> Res:
             continue
         base[i] = b
         res.count("fresh_process_baselines")
-    digest0 = state_digest()
+    from vf.harness import Scratch
+
     for hi in range(shard["histories"]):
         hist = [history_action(rng) for _ in range(rng.randint(1, 12))]
         done: list[dict] = []
+        with Scratch({}):
+          _project_dir["on"] = True
+          try:
+            _run_history(res, rng, hist, done, probes, base)
+          finally:
+            _project_dir["on"] = False
+        if hi == 0:
+            res.sample({"history": [a["what"] for a in hist], "first_action": hist[0]["src"][:200], "probes": [p["name"] for p in probes]})
+    return res
+
+
+def _run_history(res: Res, rng: random.Random, hist: list, done: list, probes: list, base: dict) -> None:
+        digest0 = state_digest()
         for act in hist:
             try:
                 run_action(act)
@@ -229,20 +265,24 @@ def run_shard(shard: dict) -> Res:
             if d != digest0:
                 res.count("state_digest_changed(diagnostic)")
                 digest0 = d
-        if hi == 0:
-            res.sample({"history": [a["what"] for a in hist], "first_action": hist[0]["src"][:200], "probes": [p["name"] for p in probes]})
-    return res
 
 
 def replay(w: dict) -> Res:
+    from vf.harness import Scratch
+
     res = Res()
     pr = dec(w["probe"])
-    for a in w["history"]:
+    with Scratch({}):
+        _project_dir["on"] = True
         try:
-            run_action(dec(a))
-        except BaseException:  # noqa: BLE001
-            pass
-    sig = signature(pr)
+            for a in w["history"]:
+                try:
+                    run_action(dec(a))
+                except BaseException:  # noqa: BLE001
+                    pass
+            sig = signature(pr)
+        finally:
+            _project_dir["on"] = False
     res.case(pr["src"], True)
     if sig != w["baseline"]:
         diff = next(k for k in sig if sig[k] != w["baseline"][k])
